@@ -3386,22 +3386,186 @@ fn drive_str(a: &Args, name: &str) -> Value {
            "files": tr.files.iter().map(|p| p.display().to_string()).collect::<Vec<_>>()})
 }
 
+// ================================================================ several BumpVecs of different element types in ONE allocator
+
+/// element types of different size / alignment (1, 2, 4, 8, 16, and a padded pair); the value is < 250
+enum MixVec {
+    A(zipora::memory::bump::BumpVec<'static, u8>),
+    B(zipora::memory::bump::BumpVec<'static, u16>),
+    C(zipora::memory::bump::BumpVec<'static, u32>),
+    D(zipora::memory::bump::BumpVec<'static, u64>),
+    E(zipora::memory::bump::BumpVec<'static, u128>),
+    F(zipora::memory::bump::BumpVec<'static, (u8, u64)>),
+}
+const MIX_TYPES: &[&str] = &["u8", "u16", "u32", "u64", "u128", "(u8,u64)"];
+impl MixVec {
+    fn new(al: &'static BumpAllocator, ty: usize, cap: usize) -> Option<MixVec> {
+        use zipora::memory::bump::BumpVec;
+        Some(match ty {
+            0 => MixVec::A(BumpVec::new_in(al, cap).ok()?),
+            1 => MixVec::B(BumpVec::new_in(al, cap).ok()?),
+            2 => MixVec::C(BumpVec::new_in(al, cap).ok()?),
+            3 => MixVec::D(BumpVec::new_in(al, cap).ok()?),
+            4 => MixVec::E(BumpVec::new_in(al, cap).ok()?),
+            _ => MixVec::F(BumpVec::new_in(al, cap).ok()?),
+        })
+    }
+    fn push(&mut self, v: u8) -> bool {
+        match self {
+            MixVec::A(x) => x.push(v).is_ok(),
+            MixVec::B(x) => x.push(v as u16 * 257).is_ok(),
+            MixVec::C(x) => x.push(v as u32 * 0x0101_0101).is_ok(),
+            MixVec::D(x) => x.push(v as u64 * 0x0101_0101_0101_0101).is_ok(),
+            MixVec::E(x) => x.push(v as u128 * 0x0101_0101_0101_0101_0101_0101_0101_0101).is_ok(),
+            MixVec::F(x) => x.push((v, v as u64 * 0x0101_0101_0101_0101)).is_ok(),
+        }
+    }
+    /// every byte of an element repeats the value: an element that was partly overwritten reads as -1
+    fn content(&self) -> Vec<(i64, i64)> {
+        fn p(ok: bool, v: u8) -> (i64, i64) {
+            if ok { (v as i64, 0) } else { (-1, 0) }
+        }
+        match self {
+            MixVec::A(x) => x.as_slice().iter().map(|&e| (e as i64, 0)).collect(),
+            MixVec::B(x) => x.as_slice().iter().map(|&e| p(e == (e as u8) as u16 * 257, e as u8)).collect(),
+            MixVec::C(x) => x.as_slice().iter().map(|&e| p(e == (e as u8) as u32 * 0x0101_0101, e as u8)).collect(),
+            MixVec::D(x) => x.as_slice().iter().map(|&e| p(e == (e as u8) as u64 * 0x0101_0101_0101_0101, e as u8)).collect(),
+            MixVec::E(x) => x.as_slice().iter().map(|&e| p(e == (e as u8) as u128 * 0x0101_0101_0101_0101_0101_0101_0101_0101, e as u8)).collect(),
+            MixVec::F(x) => x.as_slice().iter().map(|&(a, b)| p(b == a as u64 * 0x0101_0101_0101_0101, a)).collect(),
+        }
+    }
+    fn pop(&mut self) -> Option<(i64, i64)> {
+        let last = self.content().last().copied();
+        let got = match self {
+            MixVec::A(x) => x.pop().is_some(),
+            MixVec::B(x) => x.pop().is_some(),
+            MixVec::C(x) => x.pop().is_some(),
+            MixVec::D(x) => x.pop().is_some(),
+            MixVec::E(x) => x.pop().is_some(),
+            MixVec::F(x) => x.pop().is_some(),
+        };
+        if got { last } else { None }
+    }
+    fn len_cap(&self) -> (usize, usize) {
+        match self {
+            MixVec::A(x) => (x.len(), x.capacity()),
+            MixVec::B(x) => (x.len(), x.capacity()),
+            MixVec::C(x) => (x.len(), x.capacity()),
+            MixVec::D(x) => (x.len(), x.capacity()),
+            MixVec::E(x) => (x.len(), x.capacity()),
+            MixVec::F(x) => (x.len(), x.capacity()),
+        }
+    }
+    fn obs(&self) -> Value {
+        let (len, cap) = self.len_cap();
+        json!({"c": esj(&self.content()), "len": len, "cap": cap, "has_it": false, "it": [], "has_get": false, "gets": [],
+               "view_names": [], "views": [], "alt_len": [], "alt_cap": []})
+    }
+}
+const VEC_MIXED: &[&str] = &["bumpvec_mixed:one_allocator"];
+
+/// 3 - 6 BumpVecs of different element types carved from one allocator in varying order with odd capacities (padding
+/// is needed between them), pushes interleaved, and after EVERY mutation every vector is read back: the vectors are
+/// independent sequences sharing an arena.  (BumpVec has a fixed capacity: there is no growth inside the arena.)
+fn drive_bump_mixed(a: &Args, name: &str) -> Value {
+    let mut tr = Tracer::new(&a.out, &format!("seq-{}", sanitize(name)));
+    tr.max_events = 2500;
+    let rng0 = Rng::new(a.seed);
+    let (mut nev, mut runs) = (0usize, 0usize);
+    let nruns = if a.thorough() { 150 } else { 22 };
+    for run in 0..nruns {
+        let mut rng = rng0.derive(&format!("{name}/{run}"));
+        let k = if run % 4 == 3 { rng.range(4, 6) as usize } else { 3 };
+        let mut order: Vec<usize> = (0..MIX_TYPES.len()).collect();
+        rng.shuffle(&mut order);
+        if run < 6 {
+            // the small types first: the next, more strictly aligned one needs padding
+            order = [vec![0, 3, run % 6], vec![1, 4, 0], vec![0, 5, 2]][run % 3].clone();
+        }
+        order.truncate(k);
+        let ab = std::rc::Rc::new(AllocBox(Box::into_raw(Box::new(BumpAllocator::new(4096).expect("allocator")))));
+        let al: &'static BumpAllocator = unsafe { &*ab.0 };
+        let caps: Vec<usize> = (0..k).map(|_| *rng.pick(&[1usize, 3, 5, 7])).collect();
+        let mut vecs: Vec<MixVec> = vec![];
+        tr.reset("seq", name, json!({"fam": fam_of(name), "variant": variant_of(name), "acct": false, "readonly": false, "seed": a.seed,
+                                     "types": order.iter().map(|&t| MIX_TYPES[t]).collect::<Vec<_>>(), "caps": caps}));
+        runs += 1;
+        let mut val = 1u8;
+        let readback = |tr: &mut Tracer, vecs: &Vec<MixVec>, except: usize, nev: &mut usize| {
+            for (j, v) in vecs.iter().enumerate() {
+                if j != except {
+                    tr.ev(json!({"op":"maintenance","what":"read_back","o":j + 1,"ok":true,"dropped":[],"born":[],"post":v.obs()}));
+                    *nev += 1;
+                }
+            }
+        };
+        let mut dead = false;
+        // create the first vector, push one element, then create the others one by one with a push in between
+        for (j, &ty) in order.iter().enumerate() {
+            let v = match MixVec::new(al, ty, caps[j]) {
+                Some(v) => v,
+                None => {
+                    dead = true;
+                    break;
+                }
+            };
+            vecs.push(v);
+            if j > 0 {
+                tr.ev(json!({"op":"new_empty","o":1,"o2":j + 1,"ok":true,"dropped":[],"born":[],"post":vecs[j].obs(),"src":vecs[0].obs()}));
+                nev += 1;
+                readback(&mut tr, &vecs, j, &mut nev);
+            }
+            let ok = vecs[j].push(val);
+            tr.ev(json!({"op":"push","o":j + 1,"x":[val, 0],"ok":ok,"dropped":[],"born":[],"post":vecs[j].obs()}));
+            nev += 1;
+            val = val % 240 + 1;
+            readback(&mut tr, &vecs, j, &mut nev);
+        }
+        // interleaved pushes (and some pops) until every vector is full
+        let mut guard_steps = 0;
+        while !dead && guard_steps < 80 && vecs.iter().any(|v| { let (l, c) = v.len_cap(); l < c }) {
+            guard_steps += 1;
+            let j = rng.below(vecs.len() as u64) as usize;
+            if rng.chance(1, 6) {
+                let r = vecs[j].pop();
+                tr.ev(json!({"op":"pop","o":j + 1,"r":oej(r),"dropped":[],"born":[],"post":vecs[j].obs()}));
+            } else {
+                let ok = vecs[j].push(val);
+                tr.ev(json!({"op":"push","o":j + 1,"x":[val, 0],"ok":ok,"dropped":[],"born":[],"post":vecs[j].obs()}));
+                val = val % 240 + 1;
+            }
+            nev += 1;
+            readback(&mut tr, &vecs, j, &mut nev);
+        }
+        while let Some(v) = vecs.pop() {
+            drop(v);
+            tr.ev(json!({"op":"drop","o":vecs.len() + 1,"dropped":[],"born":[]}));
+            nev += 1;
+        }
+        drop(ab);
+        tr.flush();
+    }
+    tr.close();
+    json!({"events": nev, "runs": runs, "nontrivial_runs": runs, "panics": 0, "refused": 0, "ops": {"push": nev},
+           "files": tr.files.iter().map(|p| p.display().to_string()).collect::<Vec<_>>()})
+}
+
 // ================================================================ orchestration: one child per subject
 
 fn all_subjects(kind: &str) -> Vec<String> {
     let v: Vec<&str> = match kind {
-        "seq" => VEC_EL.iter().chain(VEC_U64.iter()).chain(VEC_U8.iter()).chain(VEC_ZST.iter()).copied().collect(),
+        "seq" => VEC_EL.iter().chain(VEC_U64.iter()).chain(VEC_U8.iter()).chain(VEC_ZST.iter()).chain(VEC_MIXED.iter()).copied().collect(),
         "deque" => DQ_FIXED.iter().chain(DQ_GROW.iter()).chain(DQ_ZST.iter()).copied().collect(),
         "dqfixed" => DQ_FIXED.to_vec(),
         "dqgrow" => DQ_GROW.iter().copied().collect(),
         "str" => STR_SUBJECTS.to_vec(),
         "witness" => WITNESSES.to_vec(),
-        _ => VEC_EL.iter().chain(VEC_U64.iter()).chain(VEC_U8.iter()).chain(VEC_ZST.iter()).chain(DQ_FIXED.iter()).chain(DQ_GROW.iter()).chain(DQ_ZST.iter()).chain(STR_SUBJECTS.iter()).copied().collect(),
+        _ => VEC_EL.iter().chain(VEC_U64.iter()).chain(VEC_U8.iter()).chain(VEC_ZST.iter()).chain(VEC_MIXED.iter()).chain(DQ_FIXED.iter()).chain(DQ_GROW.iter()).chain(DQ_ZST.iter()).chain(STR_SUBJECTS.iter()).copied().collect(),
     };
     v.into_iter().map(|s| s.to_string()).collect()
 }
 fn domain_of(name: &str) -> &'static str {
-    if WITNESSES.contains(&name) || VEC_EL.contains(&name) || VEC_U64.contains(&name) || VEC_U8.contains(&name) || VEC_ZST.contains(&name) {
+    if WITNESSES.contains(&name) || VEC_MIXED.contains(&name) || VEC_EL.contains(&name) || VEC_U64.contains(&name) || VEC_U8.contains(&name) || VEC_ZST.contains(&name) {
         "seq"
     } else if STR_SUBJECTS.contains(&name) {
         "strseq"
@@ -3519,7 +3683,9 @@ fn child_summary(a: &Args, name: &str, v: &Value) {
 
 fn child_drive(a: &Args) {
     let name = a.subject.clone().expect("--subject");
-    let v = if VEC_EL.contains(&name.as_str()) {
+    let v = if VEC_MIXED.contains(&name.as_str()) {
+        drive_bump_mixed(a, &name)
+    } else if VEC_EL.contains(&name.as_str()) {
         drive_vec::<El>(a, &name, &make_vec_el)
     } else if VEC_U64.contains(&name.as_str()) {
         drive_vec::<u64>(a, &name, &make_vec_u64)
@@ -3546,7 +3712,9 @@ fn child_replay(a: &Args) {
     let input = a.input.clone().expect("--in");
     let text = std::fs::read_to_string(&input).expect("read behaviours");
     let behaviours: Vec<Value> = text.lines().filter(|l| !l.trim().is_empty()).map(|l| serde_json::from_str(l).expect("behaviour json")).collect();
-    let v = if VEC_EL.contains(&name.as_str()) {
+    let v = if VEC_MIXED.contains(&name.as_str()) {
+        json!({"behaviours": 0, "unsupported": behaviours.len(), "events": 0, "runs": 0})
+    } else if VEC_EL.contains(&name.as_str()) {
         replay_vec::<El>(a, &name, &behaviours, &make_vec_el)
     } else if VEC_U64.contains(&name.as_str()) {
         replay_vec::<u64>(a, &name, &behaviours, &make_vec_u64)
